@@ -408,15 +408,21 @@ PROPS = {
     },
     "C19": {
         "level": "proof",
-        "verus": [("columns", None)],
+        "verus": [("columns", None), ("alignment", None)],
         "kani": {"quick": ["get_column_complete"], "thorough": []},
         "family": ("c19", {"quick": ["quick"], "thorough": ["thorough"]}),
         "explanation": "Verus proves the column arithmetic of formatted postings on get_column, Alignment::{absolute,plus} and on the two get_column call expressions sliced out of Display for Posting: "
                        "padding is always >= 2, a short account makes the amount's numeric part end at column 52 and a balance-only posting's `=` land where it would after an amount; the indent literals "
-                       "of posting and metadata lines are exactly four spaces.",
-        "units_doc": ["core/src/syntax/display.rs: get_column, Alignment::{absolute,plus}, call-site slices get_column(48, ..) / get_column(50 + trailing, ..), format-string literal slices"],
-        "assumptions": ["fmt plumbing ({:>width$}), unicode-width and fmt_with_alignment's returned offset are not verified", "widths < 2^30"],
-        "not_decided": ["fmt_with_alignment offsets, unicode width, entry separation in format.rs"],
+                       "of posting and metadata lines are exactly four spaces.  Group `alignment` (structural induction over every expression tree): the three fmt_with_alignment impls (ValueExpr, Expr, Amount) append exactly "
+                       "the expression's text to the sink - `(`..`)`, the operator between single spaces, the number, one space, the commodity - and return, as Complete(k), the byte offset k of the END OF THE NUMERIC PART "
+                       "of the first amount that carries a commodity, or Partial(length of the whole text) when no amount carries one; that offset lies inside the printed text (lemma); the Display impls of UnaryOp / BinaryOp "
+                       "print exactly one ASCII character (the alignment arithmetic counts 1 and 3 for them); WithContext::pass_context keeps the context.",
+        "units_doc": ["core/src/syntax/display.rs: get_column, Alignment::{absolute,plus}, call-site slices get_column(48, ..) / get_column(50 + trailing, ..), format-string literal slices",
+                      "core/src/syntax/display.rs: DisplayWithAlignment for WithContext<ValueExpr> / <Expr> / <Amount> (whole functions), WithContext::pass_context", "core/src/syntax/expr.rs: Display for UnaryOp, Display for BinaryOp"],
+        "assumptions": ["ASSUMED model of core::fmt (vx/prelude/fmt_model.rs): write!(f, ..) sends the pieces of its format string to the sink in order and stops at the first error (rule R40); `{}` appends the argument's Display text; x.to_string() is that text; "
+                        "str::len counts UTF-8 bytes (utf8_len is the definition of the encoding)", "ASSUMED: display::rescale is a function of (amount, context) (its contract is proved in group `rescale`); the text Display for PrettyDecimal prints is uninterpreted here (family c07)",
+                        "the printed text of one expression has at most usize::MAX bytes (requires of fmt_with_alignment)", "{:>width$} padding and unicode-width are not verified", "widths < 2^30"],
+        "not_decided": ["that the number PrettyDecimal prints is ASCII (so that bytes = display columns; family c07 / c19)", "the statement order inside Display for Posting beyond the sliced expressions; unicode width; entry separation in format.rs"],
     },
 }
 
